@@ -41,8 +41,9 @@ VARIABLES l,        \* next line
           fin,      \* number of finished commands
           lastf,    \* last finished-count shown on a status line; lastt: the total shown with it
           started, finished,   \* sets of statements
+          acc,      \* batch mode (real binary: stdout known only at the end): what is due so far, compared at the end
           viol, stats
-vars == <<l, meta, locked, held, shown, fin, lastf, started, finished, viol, stats>>
+vars == <<l, meta, locked, held, shown, fin, lastf, started, finished, acc, viol, stats>>
 
 E == Tr[l]
 Is(name) == l <= Len(Tr) /\ E.e = name
@@ -72,26 +73,36 @@ Describe(obs, exp) ==
 
 Counters(obs) ==
   LET st == SelectSeq(obs, LAMBDA t : t.k = "status") IN
-  (IF \E i \in DOMAIN st : st[i].f > st[i].t THEN {V("a progress counter exceeds the total")} ELSE {})
-  \cup (IF E.e = "Finished" /\ ~locked /\ \E i \in DOMAIN st : st[i].s = E.s /\ st[i].f # fin + 1
+  (IF \E i \in DOMAIN st : st[i].f >= 0 /\ st[i].t >= 0 /\ st[i].f > st[i].t THEN {V("a progress counter exceeds the total")} ELSE {})
+  \* the counters of a NINJA_STATUS format: started %s, running %r, unstarted %u, percentage %p (-1: not in the format)
+  \cup (IF \E i \in DOMAIN st : \/ (st[i].cs >= 0 /\ st[i].t >= 0 /\ st[i].cs > st[i].t)
+                                 \/ (st[i].cs >= 0 /\ st[i].f >= 0 /\ st[i].f > st[i].cs)
+                                 \* a line written at a finish still counts the finishing command as running
+                                 \/ (st[i].cr >= 0 /\ st[i].cs >= 0 /\ st[i].f >= 0 /\ (st[i].cr > st[i].cs - st[i].f + 1 \/ st[i].cr < st[i].cs - st[i].f))
+                                 \/ (st[i].cu >= 0 /\ st[i].cs >= 0 /\ st[i].t >= 0 /\ st[i].cu # st[i].t - st[i].cs)
+                                 \/ (st[i].cp >= 0 /\ (st[i].cp > 100 \/ (st[i].f >= 0 /\ st[i].t > 0 /\ st[i].cp # (100 * st[i].f) \div st[i].t)))
+        THEN {V("the counters of a status line are inconsistent (started / running / unstarted / finished / total / percentage)")} ELSE {})
+  \cup (IF E.e = "Finished" /\ ~meta.batch /\ ~locked /\ \E i \in DOMAIN st : st[i].s = E.s /\ st[i].f >= 0 /\ st[i].f # fin + 1
         THEN {V("the finished count on a status line is not the number of commands reported finished")} ELSE {})
 
 Check(exp) ==
   LET obs == Obs IN
-  viol' = viol \cup (IF Match(obs, 1, exp, 1) THEN {} ELSE {V(Describe(obs, exp))}) \cup Counters(obs)
+  IF meta.batch /\ E.e # "BuildFinished" THEN viol' = viol /\ acc' = acc \o exp
+  ELSE /\ viol' = viol \cup (IF Match(obs, 1, acc \o exp, 1) THEN {} ELSE {V(Describe(obs, acc \o exp))}) \cup Counters(obs)
+       /\ acc' = <<>>
 Show(exp) == shown' = shown \cup {<<Obs[i].k, Obs[i].s>> : i \in DOMAIN Obs}
 \* the counters on the status line of the command whose finish is reported by this call, if it is written now
 LastF == LET st == SelectSeq(Obs, LAMBDA t : t.k = "status" /\ E.e = "Finished" /\ t.s = E.s) IN
          lastf' = IF Len(st) > 0 THEN [f |-> st[Len(st)].f, t |-> st[Len(st)].t] ELSE [f |-> 0, t |-> 0]
 
 Stats0 == [execs |-> 0, calls |-> 0, tokens |-> 0, heldItems |-> 0, consoleRuns |-> 0, failed |-> 0, outputs |-> 0]
-Init == /\ l = 1 /\ meta = [sc |-> "", run |-> 0, tty |-> FALSE] /\ locked = FALSE /\ held = <<>> /\ shown = {} /\ fin = 0
+Init == /\ l = 1 /\ meta = [sc |-> "", run |-> 0, tty |-> FALSE, batch |-> FALSE] /\ acc = <<>> /\ locked = FALSE /\ held = <<>> /\ shown = {} /\ fin = 0
         /\ lastf = [f |-> 0, t |-> 0] /\ started = {} /\ finished = {} /\ viol = {} /\ stats = Stats0
 
 TReset ==
   /\ Is("Reset")
-  /\ meta' = [sc |-> E.sc, run |-> E.run, tty |-> E.tty]
-  /\ locked' = FALSE /\ held' = <<>> /\ shown' = {} /\ fin' = 0 /\ lastf' = [f |-> 0, t |-> 0] /\ started' = {} /\ finished' = {}
+  /\ meta' = [sc |-> E.sc, run |-> E.run, tty |-> E.tty, batch |-> E.batch]
+  /\ acc' = <<>> /\ locked' = FALSE /\ held' = <<>> /\ shown' = {} /\ fin' = 0 /\ lastf' = [f |-> 0, t |-> 0] /\ started' = {} /\ finished' = {}
   /\ stats' = [stats EXCEPT !.execs = @ + 1]
   /\ UNCHANGED viol /\ Step
 
@@ -149,13 +160,13 @@ TEnd ==
        \cup (IF E.ok /\ fin > 0 /\ lastf.t > 0 /\ lastf.f # lastf.t THEN {V("after a successful build the status line of the last command does not show finished = total")} ELSE {})
        \cup (IF held # <<>> \/ locked THEN {V("output held back for a console command was never written")} ELSE {})
        \cup (IF \E r \in finished : r.out /\ <<"out", r.s>> \notin shown THEN {V("the output of a finished command was never shown")} ELSE {})
-  /\ UNCHANGED <<meta, locked, held, shown, fin, lastf, started, finished, stats>> /\ Step
+  /\ UNCHANGED <<meta, locked, held, shown, fin, lastf, started, finished, acc, stats>> /\ Step
 
 TFlush ==
   /\ l = Len(Tr) + 1
   /\ ndJsonSerialize(OutFile, <<[stats |-> stats, viol |-> SetToSeq(viol)]>>)
   /\ l' = l + 1
-  /\ UNCHANGED <<meta, locked, held, shown, fin, lastf, started, finished, viol, stats>>
+  /\ UNCHANGED <<meta, locked, held, shown, fin, lastf, started, finished, acc, viol, stats>>
 
 Next == TReset \/ TStarted \/ TFinished \/ TBuildFinished \/ TOther \/ TEnd \/ TFlush
 Spec == Init /\ [][Next]_vars
